@@ -10,7 +10,8 @@ cover (the inventory is `Model/SerImpls.lean`):
 * `core/src/core/block_sums.rs` — `BlockSums`;
 * `store/src/types.rs` — `SizeEntry` (the element of a `pmmr_size.bin` file);
 * `core/src/ser.rs` — `ProtocolVersion`, the fixed-size byte strings `Commitment`, `BlindingFactor`,
-  `Identifier`, `Signature`, `Hash`, `PublicKey` (the curve check is a parameter), the integer impls of
+  `Identifier`, `Signature`, `Hash`, `PublicKey` (generic in the curve test, and with the real test
+  `secpOnCurve`), the integer impls of
   `impl_int!`, the tuples `(A,B,C)` and `(A,B,C,D)`;
 * `p2p/src/store.rs` — `PeerData` (LMDB value of the peer store), with its two OPTIONAL trailing
   fields: a failed `read_i64` is replaced by `Utc::now()` (parameter `now`) resp. `0`;
@@ -164,6 +165,31 @@ compressed point succeeds; crypto is a parameter); the writer emits the compress
 def decPublicKey (onCurve : Bytes → Bool) : Parser Bytes := fun bs =>
   andThen (readFixed PUBKEY_SIZE bs) fun b r =>
     if onCurve b then .ok (b, r) else .error .corrupted
+
+/-- the field prime of secp256k1 -/
+def SECP_P : Nat := 2^256 - 2^32 - 977
+
+/-- `b^e mod m` by square-and-multiply over the `fuel` low bits of `e` -/
+def powMod (b m : Nat) : Nat → Nat → Nat
+  | 0, _ => 1 % m
+  | fuel+1, e =>
+    let h := powMod b m fuel (e / 2)
+    if e % 2 = 1 then h * h % m * b % m else h * h % m
+
+/-- what `secp256k1_ec_pubkey_parse` accepts for a 33-byte input: tag 02 / 03, `x < p`, and
+`x³ + 7` a non-zero square mod p (Euler's criterion; the group has odd prime order, so no point has
+`y = 0`) -/
+def secpOnCurve (b : Bytes) : Bool :=
+  match b with
+  | tag :: xs =>
+    let x := ofBE xs
+    (tag == 2 || tag == 3) && xs.length == 32 && decide (x < SECP_P)
+      && powMod ((x * x * x + 7) % SECP_P) SECP_P 256 ((SECP_P - 1) / 2) == 1
+  | [] => false
+
+/-- `Readable for PublicKey` with the real curve test; the writer's compressed form of a parsed key is
+the bytes it was parsed from (the tag byte IS the parity of `y`) -/
+def decPublicKeyReal : Parser Bytes := decPublicKey secpOnCurve
 
 /-- `impl_int!(i32, write_i32, read_i32)` -/
 def writeI32 (z : Int) : Bytes := writeU32 (z % 2^32).toNat
